@@ -1251,6 +1251,8 @@ class Model:
 
     def add_extra_terms(self, encodings, data, env):
         # Adds additional terms in the common part in case they're needed for full rankness
+        # Returns the encoding of each of the terms added, keyed by the id of the term.
+        extra_encodings = {}
         common_terms = self.common_terms.copy()
         for term in common_terms:
             encoding = encodings.get(term.name)
@@ -1259,6 +1261,8 @@ class Model:
                 for subencoding in encoding[:-1]:
                     extra_term = create_extra_term(term, subencoding, data, env)
                     self.common_terms.insert(self.common_terms.index(term), extra_term)
+                    extra_encodings[id(extra_term)] = subencoding
+        return extra_encodings
 
     def eval(self, data, env):
         """Evaluates terms in the model.
@@ -1275,15 +1279,15 @@ class Model:
 
         # Evaluate common terms
         encodings = self._get_encoding_bools()
-        self.add_extra_terms(encodings, data, env)
-
-        # Need to get encodings again after creating possible extra terms
-        encodings = self._get_encoding_bools()
+        extra_encodings = self.add_extra_terms(encodings, data, env)
 
         for term in self.common_terms:
-            if term.name in encodings:
-                # Since we added extra terms before, we can assume 'encodings' has lists of length 1
-                encoding = encodings[term.name][0]
+            if id(term) in extra_encodings:
+                # A term added above: it is coded exactly as the analysis asked for
+                encoding = extra_encodings[id(term)]
+            elif encodings.get(term.name):
+                # The last encoding is the one for the original term, the others became extra terms
+                encoding = encodings[term.name][-1]
             else:
                 encoding = False
             term.set_data(encoding)
